@@ -37,6 +37,10 @@ fn transport_parameters_read_total_10() {
 // ---- PreferredAddress (transport parameter 0x0d): fixed layout, so every value and every input length that matters fits a harness ----
 
 fn any_preferred_address() -> PreferredAddress {
+    any_preferred_address_cid(None)
+}
+
+fn any_preferred_address_cid(fixed_len: Option<usize>) -> PreferredAddress {
     let v4 = if vk::any() {
         Some(SocketAddrV4::new(Ipv4Addr::from(vk::any::<[u8; 4]>()), vk::any()))
     } else {
@@ -48,7 +52,10 @@ fn any_preferred_address() -> PreferredAddress {
         None
     };
     let cid_bytes: [u8; MAX_CID_SIZE] = vk::any();
-    let cid_len: usize = vk::any();
+    let cid_len: usize = match fixed_len {
+        Some(n) => n,
+        None => vk::any(),
+    };
     vk::assume(cid_len <= MAX_CID_SIZE);
     PreferredAddress {
         address_v4: v4,
@@ -58,12 +65,23 @@ fn any_preferred_address() -> PreferredAddress {
     }
 }
 
-// @harness preferred_address_roundtrip props=C10 tier=quick kind=proof timeout=900 fn="PreferredAddress::{write,read,wire_size}, Codec for Ipv4Addr / Ipv6Addr / u16 / u8" desc="for every preferred address (either or both families, any addresses and ports other than the all-zero address with port 0 that encodes absence, connection IDs of 0..=20 bytes, any reset token): write produces exactly wire_size() bytes and read decodes them back to the same value, consuming all of them"
+// @harness preferred_address_roundtrip_cid8 props=C10 tier=quick kind=proof timeout=900 fn="PreferredAddress::{write,read,wire_size}, Codec for Ipv4Addr / Ipv6Addr / u16 / u8" desc="the round trip below for connection IDs of exactly 8 bytes (the length quinn issues by default); the harness over every length is in the thorough tier because its SAT query takes about 15 minutes"
+#[cfg_attr(kani, kani::proof)]
+#[cfg_attr(kani, kani::unwind(24))]
+#[cfg_attr(verif_replay, test)]
+fn preferred_address_roundtrip_cid8() {
+    pa_roundtrip(any_preferred_address_cid(Some(8)));
+}
+
+// @harness preferred_address_roundtrip props=C10 tier=thorough kind=proof timeout=2400 fn="PreferredAddress::{write,read,wire_size}, Codec for Ipv4Addr / Ipv6Addr / u16 / u8" desc="for every preferred address (either or both families, any addresses and ports other than the all-zero address with port 0 that encodes absence, connection IDs of 0..=20 bytes, any reset token): write produces exactly wire_size() bytes and read decodes them back to the same value, consuming all of them"
 #[cfg_attr(kani, kani::proof)]
 #[cfg_attr(kani, kani::unwind(24))]
 #[cfg_attr(verif_replay, test)]
 fn preferred_address_roundtrip() {
-    let pa = any_preferred_address();
+    pa_roundtrip(any_preferred_address());
+}
+
+fn pa_roundtrip(pa: PreferredAddress) {
     // the all-zero address with port 0 is how an absent family is encoded, and a preferred address with neither family is illegal
     vk::assume(pa.address_v4.is_some() || pa.address_v6.is_some());
     if let Some(a) = pa.address_v4 {
@@ -102,12 +120,12 @@ fn pa_read_case<const N: usize>() {
     }
 }
 
-// @harness preferred_address_read_total_44 props=C03,C10 tier=quick kind=bounded bound="inputs of at most 44 bytes (connection IDs of at most 3 bytes decode successfully; every truncation point of the fixed part is covered)" timeout=900 fn="PreferredAddress::read, Codec for Ipv4Addr / Ipv6Addr" desc="for every byte string of 0..=44 bytes: PreferredAddress::read never panics or reads past the end; on success it consumed exactly 41 + (connection-ID length) bytes; a string shorter than that is rejected"
+// @harness preferred_address_read_total_64 props=C03,C10 tier=quick kind=bounded bound="inputs of at most 64 bytes (the decoder never looks at more than 61: 4+2+16+2+1+20+16)" timeout=900 fn="PreferredAddress::read, Codec for Ipv4Addr / Ipv6Addr" desc="for every byte string of 0..=64 bytes: PreferredAddress::read never panics or reads past the end; on success it consumed exactly 41 + (connection-ID length) bytes; a string shorter than that is rejected"
 #[cfg_attr(kani, kani::proof)]
 #[cfg_attr(kani, kani::unwind(24))]
 #[cfg_attr(verif_replay, test)]
-fn preferred_address_read_total_44() {
-    pa_read_case::<44>();
+fn preferred_address_read_total_64() {
+    pa_read_case::<64>();
 }
 
 // @harness codec_ip_decode_total props=C03,C10 tier=quick kind=bounded bound="inputs of at most 18 bytes (the decoders look at 4 and 16 bytes)" timeout=600 fn="Codec for Ipv4Addr::decode, Codec for Ipv6Addr::decode" desc="for every byte string of 0..=18 bytes: decoding an IPv4 / IPv6 address fails exactly when fewer than 4 / 16 bytes are left, never panics, and consumes exactly 4 / 16 bytes with the octets in order"
